@@ -3,6 +3,7 @@
 (* force linking of the driver modules (each registers its commands) *)
 let () = Drv_check.(ignore of_error)
 let () = Dfa_io.(ignore of_inp)
+let () = Drv_bashsem.(ignore linked)
 
 let () =
   let ic = stdin in
